@@ -79,6 +79,24 @@ pub fn plugin_evaluate(pos: &Pos, k: u64) -> Result<Option<Mv>, String> {
     })
 }
 
+/// several searches of one position on ONE plugin instance, without a move in between (a
+/// host that asks again with a longer limit): for each limit (move, score, polls consumed,
+/// did the limit expire)
+pub fn plugin_session(pos: &Pos, ks: &[u64]) -> Result<Vec<(Option<Mv>, chess_engine::Score, u64, bool)>, String> {
+    let b = to_board(pos)?;
+    with_engine(|e| {
+        e.set_board(b);
+        let mut out = vec![];
+        for &k in ks {
+            let t = CountingTimeout::new(k);
+            let (mv, score) = e.evaluate(&t);
+            let polls = t.polls();
+            out.push((mv.map(from_cm), score, polls, polls > k));
+        }
+        out
+    })
+}
+
 struct Model {
     pos: Pos,
     counts: HashMap<Key, u32>,
